@@ -12,7 +12,7 @@ REPO = os.environ.get("VERIF_REPO", "/repo")
 
 
 def main():
-    pkg, out = sys.argv[1], sys.argv[2]
+    pkg, out = sys.argv[1], os.path.abspath(sys.argv[2])
     files = sys.argv[3:] or sorted(glob.glob(os.path.join(VERIF, "inpkg", pkg, "*.go")))
     files = [f if os.path.isabs(f) else os.path.join(VERIF, "inpkg", pkg, f) for f in files]
     bdir = os.path.join(os.environ.get("VERIF_BIN", os.path.join(VERIF, "build")), "inpkg-" + pkg.replace("/", "_"))
